@@ -117,6 +117,28 @@ pub enum ExpVariant {
     OtherExpander(u8),
     /// a call outside the property's domain (tag of 256..=400 bytes), outcome ignored, panic caught
     OutOfDomainTag(u8),
+    /// move k bytes across the msg | tag boundary (same concatenation, different request)
+    ShiftBoundary(i8),
+}
+
+/// (msg, dst) with k bytes moved across the boundary; unchanged when there are not enough bytes or the tag would exceed 255
+pub fn shift_boundary(msg: &[u8], dst: &[u8], k: i8) -> (Vec<u8>, Vec<u8>) {
+    let (mut m, mut d) = (msg.to_vec(), dst.to_vec());
+    if k > 0 {
+        let k = std::cmp::min(k as usize, m.len());
+        if d.len() + k <= 255 {
+            let tail = m.split_off(m.len() - k);
+            let mut nd = tail;
+            nd.extend_from_slice(&d);
+            d = nd;
+        }
+    } else if k < 0 {
+        let k = std::cmp::min((-(k as i32)) as usize, d.len());
+        let rest = d.split_off(k);
+        m.extend_from_slice(&d);
+        d = rest;
+    }
+    (m, d)
 }
 
 #[derive(Clone, Debug, Serialize, Deserialize, PartialEq, Eq, Hash)]
@@ -133,6 +155,7 @@ fn expand_seq_strategy() -> BoxedStrategy<ExpandSeq> {
         3 => len_strategy().prop_map(ExpVariant::OtherLen),
         2 => (0u8..8).prop_map(ExpVariant::OtherExpander),
         1 => any::<u8>().prop_map(ExpVariant::OutOfDomainTag),
+        3 => prop_oneof![Just(1i8), Just(-1i8), -12i8..=12].prop_map(ExpVariant::ShiftBoundary),
     ];
     (expand_case_strategy(), proptest::collection::vec(v, 1..5)).prop_map(|(base, variants)| ExpandSeq { base, variants }).boxed()
 }
@@ -148,6 +171,12 @@ fn check_expand_seq(c: &ExpandSeq, info: &mut Info) -> Result<(), String> {
             ExpVariant::OtherMsg(m) => cur.msg = m.clone(),
             ExpVariant::OtherLen(l) => cur.len = l.clone(),
             ExpVariant::OtherExpander(e) => cur.expander = *e,
+            ExpVariant::ShiftBoundary(k) => {
+                let (m2, d2) = shift_boundary(&cur.msg.build(), &cur.dst.build(), *k);
+                cur.msg = BytesR::Lit(m2);
+                cur.dst = BytesR::Lit(d2);
+                info.class("msg-tag-boundary-shifted");
+            }
             ExpVariant::OutOfDomainTag(n) => {
                 let long: Vec<u8> = (0..256 + (*n as usize * 145) / 255).map(|i| (i % 251) as u8).collect();
                 let e = expander_of(cur.expander);
